@@ -69,9 +69,9 @@ def _check_batch(ctx, pairs, ref, hyp, eos, include_eos, cost, tier, tag, seed, 
     H = hyp.size(0)
     effs = [S.eff_pair(p, eos, include_eos) for p in pairs]
     for exclude_last, batch_first, padding in itertools.product(
-        (False, True), (False, True), (config.INDEX_PAD_VALUE, -1)
-    ):
-        if padding == -1 and (tier == "quick" and batch_first):
+        (False, True), (False, True), (config.INDEX_PAD_VALUE, -1, 7)
+    ):  # 7 is larger than every token: the padding value may sort after the targets
+        if padding != config.INDEX_PAD_VALUE and (tier == "quick" and batch_first == (padding == -1)):
             continue
         r_in, h_in = (ref.t(), hyp.t()) if batch_first else (ref, hyp)
         kw = dict(eos=eos, include_eos=include_eos, batch_first=batch_first, ins_cost=cost[0],
@@ -84,6 +84,11 @@ def _check_batch(ctx, pairs, ref, hyp, eos, include_eos, cost, tier, tag, seed, 
                 out = F.optimal_completion(r_in, h_in, warn=False, **kw)
             else:
                 out = M.OptimalCompletion(warn=False, **kw)(r_in, h_in)
+            kept, kept_copy = out, out.clone()
+            # an unrelated later call must not disturb a result the caller still holds
+            F.optimal_completion(h_in.flip(0 if not batch_first else 1), r_in, warn=False, **kw)
+            if not torch.equal(kept, kept_copy):
+                raise AssertionError("result of an earlier call changed after a later call (aliased buffer)")
             if batch_first:
                 out = out.transpose(0, 1)
             if tuple(out.shape[:2]) != (rows, N):
@@ -151,7 +156,8 @@ def _check_loss(ctx, pairs, effs, ref, hyp, logits, eos, include_eos, cost, tier
             continue
         r_in, h_in, l_in = (ref.t(), hyp.t(), logits.transpose(0, 1)) if batch_first else (ref, hyp, logits)
         kw = dict(eos=eos, include_eos=include_eos, batch_first=batch_first, ins_cost=cost[0],
-                  del_cost=cost[1], sub_cost=cost[2], reduction=reduction, ignore_index=-2)
+                  del_cost=cost[1], sub_cost=cost[2], reduction=reduction,
+                  ignore_index=(-2 if (batch_first or weight is not None) else 5))  # 5: a positive unused id
         wt = None if weight is None else torch.tensor(weight)
         case = {"kind": "ocd-loss", "tag": tag, "R": ref.size(0), "H": H, "seed": seed, "weight": weight,
                 "reversed": tag.endswith("reversed"), "sigma": list(sigma), "logits": variant, **kw}
